@@ -27,6 +27,11 @@ def kindOf : String → Kind
   | "pack" => .cacheable
   | _ => .autoCached
 
+def parseFault (t : String) : Fault :=
+  if t == "F" then .failBefore
+  else if t.startsWith "L" then .late (t.drop 1).toNat!
+  else .none
+
 def parseOpt (t : String) : Option Bytes := if t == "A" then none else unhex t
 
 def parseAdv (t : String) : Adv :=
@@ -61,7 +66,8 @@ def resClass : Res → String
   | .ok _ => "ok"
   | .err .backendNotExist => "notExist"
   | .err _ => "other"
-  | .errWithData _ _ => "invalidData"
+  | .errWithData .invalidData _ => "invalidData"
+  | .errWithData _ _ => "other"     -- the backend failed after the consumer saw (part of) the body
 
 def finishRaw (a : Acc) : Acc :=
   match a.pending, a.res, a.after with
@@ -71,7 +77,7 @@ def finishRaw (a : Acc) : Acc :=
     let cell := if ld.getD 2 "K" == "K" then a.s.cell else parseOpt (ld.getD 2 "A")
     let before : S := { be := be, cell := cell, forgotten := a.s.forgotten }
     let advs := [ld.getD 3 "N", ld.getD 4 "N"]
-    let interference := advs.any (· != "N")
+    let interference := advs.any (· != "N") || ld.getD 7 "N" != "N" || ld.getD 8 "N" != "N"
     let cellAfter := parseOpt af
     let implRes : Option Res :=
       match rs.getD 1 "" with
@@ -89,7 +95,14 @@ def finishRaw (a : Acc) : Acc :=
         -- model: which of the two cache loads performs the first download?
         let d1 := a.k == .autoCached && before.cell.isNone && before.be.isSome
         let a1 := parseAdv (advs.getD 0 "N"); let a2 := parseAdv (advs.getD 1 "N")
-        let adv : Advs := if d1 then { a2 := a1, a4 := a2 } else { a4 := a1 }
+        -- backend faults: one per backend call; the first cache load makes a call unless it is
+        -- served from an existing cell
+        let x0 := parseFault (ld.getD 7 "N"); let x1 := parseFault (ld.getD 8 "N")
+        let call1 := !(before.cell.isSome && a.k != .notCacheable)
+        let f1 : Faults := if call1 then { dl := x0, be := x0 } else {}
+        let f2 : Faults := if call1 then { dl := x1, be := x1 } else { dl := x0, be := x0 }
+        let adv : Advs := if d1 then { a2 := a1, a4 := a2, f1 := f1, f2 := f2 } else { a4 := a1, f1 := f1, f2 := f2 }
+        let faulty := ld.getD 7 "N" != "N" || ld.getD 8 "N" != "N"
         let (s', mr) := runRaw good a.k adv before
         if resClass mr != resClass ir || (match mr, ir with | .ok x, .ok y => x != y | .errWithData _ x, .errWithData _ y => x != y | _, _ => false) then
           { a with verdict := some (.differ "raw-result" s!"kind={repr a.k} before={repr before} advs={advs} model={repr mr} impl={repr ir}") }
@@ -101,7 +114,8 @@ def finishRaw (a : Acc) : Acc :=
             | .ok _, none => true
             | _, _ => false
           let lbl := [s!"be-{ld.getD 5 "?"}", s!"cell-{ld.getD 6 "?"}", s!"res-{resClass ir}"] ++
-            (if interference then ["interference"] else []) ++
+            (if interference && !faulty then ["interference"] else []) ++
+            (if faulty then ["backend-faults"] else []) ++
             (if before.forgotten then ["already-forgotten"] else []) ++
             (if s'.forgotten && !before.forgotten then ["forget"] else []) ++
             (if servedStale then ["served-from-cache-while-repo-differs"] else [])
@@ -123,6 +137,57 @@ def handleRaw (c : Case) : Verdict :=
   match fin.verdict with
   | some v => v
   | none => .agree fin.nt (([s!"kind-{repr k}".replace "Restic.Model.Cache.Kind." ""] ++ fin.labels).eraseDups)
+
+/-- history of `cacheBackend.Load` calls: cbinit <kind> <be> <cell> <label>;
+    cbload <length> <offset> <fault>; res ok <hex> | <error class>; after <cell>; endload -/
+def handleCb (c : Case) : Verdict :=
+  match c.find "cbinit" with
+  | none => .differ "protocol" "no cbinit"
+  | some ini =>
+    let k : Kind := match ini.getD 1 "" with
+      | "key" => .notCacheable | "pack" => .cacheable | _ => .autoCached
+    let s0 : S := { be := parseOpt (ini.getD 2 "A"), cell := parseOpt (ini.getD 3 "A"), forgotten := false }
+    let step (acc : S × Option Verdict × List String × Option (Array String) × Option (Array String) × Option String) (r : Array String) :=
+      let (s, v, lbl, ld, rs, af) := acc
+      if v.isSome then acc else
+      match r.getD 0 "" with
+      | "cbload" => (s, v, lbl, some r, rs, af)
+      | "res" => (s, v, lbl, ld, some r, af)
+      | "after" => (s, v, lbl, ld, rs, some (r.getD 1 "A"))
+      | "endload" =>
+        match ld, rs, af with
+        | some ld, some rs, some af =>
+          let length := (ld.getD 1 "0").toNat!; let off := (ld.getD 2 "0").toNat!
+          let x := parseFault (ld.getD 3 "N")
+          let cellAfter := parseOpt af
+          let implRes : Option Res := match rs.getD 1 "" with
+            | "ok" => (unhex (rs.getD 2 "-")).map .ok
+            | "notExist" => some (.err .backendNotExist)
+            | "other" => some (.err .backendFail)
+            | "invalidData" => some (.err .invalidData)
+            | _ => none
+          match implRes with
+          | none => (s, some (.specfalse "C38:cb:panic-or-unknown-result" s!"{rs}"), lbl, none, none, none)
+          | some ir =>
+            match cbSpecViolation length off s ir cellAfter with
+            | some clause =>
+              (s, some (.specfalse s!"C38:cb:{clause}" s!"kind={repr k} before={repr s} length={length} offset={off} fault={ld.getD 3 "N"} res={repr ir} after={af}"), lbl, none, none, none)
+            | none =>
+              let (s', mr) := cbLoad k length off none none s { dl := x, be := x }
+              if resClass mr != resClass ir || (match mr, ir with | .ok a, .ok b => a != b | _, _ => false) then
+                (s, some (.differ "cb-result" s!"kind={repr k} before={repr s} length={length} offset={off} fault={ld.getD 3 "N"} model={repr mr} impl={repr ir}"), lbl, none, none, none)
+              else if s'.cell != cellAfter then
+                (s, some (.differ "cb-cell" s!"kind={repr k} before={repr s} length={length} offset={off} fault={ld.getD 3 "N"} model={repr s'.cell} impl={af}"), lbl, none, none, none)
+              else
+                (s', v, lbl ++ [s!"cb-res-{resClass ir}", s!"cb-fault-{(ld.getD 3 "N").take 1}",
+                    (if length == 0 && off == 0 then "cb-whole-file" else "cb-range")] ++
+                    (if cellOK s then [] else ["cb-cell-corrupt-before"]), none, none, none)
+        | _, _, _ => (s, some (.differ "protocol" "endload without records"), lbl, none, none, none)
+      | _ => acc
+    let (_, v, lbl, _, _, _) := c.recs.foldl step (s0, none, [], none, none, none)
+    match v with
+    | some v => v
+    | none => .agree true ((["cb", s!"cb-kind-{ini.getD 1 ""}", s!"cb-cell-{ini.getD 4 ""}"] ++ lbl).eraseDups)
 
 def handleConc (c : Case) : Verdict :=
   let tbl := (c.findAll "good").toList.map fun r => ((unhex (r.getD 1 "-")).getD [], r.getD 2 "" == "1")
@@ -192,6 +257,7 @@ def handle (c : Case) : Verdict :=
   match c.stream with
   | "raw" => handleRaw c
   | "conc" => handleConc c
+  | "cb" => handleCb c
   | "blob" => handleBlob c
   | s => .differ "protocol" s!"unknown substream {s}"
 
